@@ -254,7 +254,7 @@ type ShadowsocksNonePacketServerUnpacker struct {
 }
 
 // ServerUnpackerInfo implements the zerocopy.ServerUnpacker ServerUnpackerInfo method.
-func (ShadowsocksNonePacketServerUnpacker) ServerUnpackerInfo() zerocopy.ServerUnpackerInfo {
+func (*ShadowsocksNonePacketServerUnpacker) ServerUnpackerInfo() zerocopy.ServerUnpackerInfo {
 	return zerocopy.ServerUnpackerInfo{
 		Headroom: ShadowsocksNonePacketClientMessageHeadroom,
 	}
@@ -270,7 +270,7 @@ func (p *ShadowsocksNonePacketServerUnpacker) UnpackInPlace(b []byte, sourceAddr
 }
 
 // NewPacker implements the zerocopy.ServerUnpacker NewPacker method.
-func (ShadowsocksNonePacketServerUnpacker) NewPacker() (zerocopy.ServerPacker, error) {
+func (*ShadowsocksNonePacketServerUnpacker) NewPacker() (zerocopy.ServerPacker, error) {
 	return ShadowsocksNonePacketServerPacker{}, nil
 }
 
@@ -400,7 +400,7 @@ type Socks5PacketServerUnpacker struct {
 }
 
 // ServerUnpackerInfo implements the zerocopy.ServerUnpacker ServerUnpackerInfo method.
-func (Socks5PacketServerUnpacker) ServerUnpackerInfo() zerocopy.ServerUnpackerInfo {
+func (*Socks5PacketServerUnpacker) ServerUnpackerInfo() zerocopy.ServerUnpackerInfo {
 	return zerocopy.ServerUnpackerInfo{
 		Headroom: Socks5PacketClientMessageHeadroom,
 	}
@@ -427,6 +427,6 @@ func (p *Socks5PacketServerUnpacker) UnpackInPlace(b []byte, sourceAddrPort neti
 }
 
 // NewPacker implements the zerocopy.ServerUnpacker NewPacker method.
-func (Socks5PacketServerUnpacker) NewPacker() (zerocopy.ServerPacker, error) {
+func (*Socks5PacketServerUnpacker) NewPacker() (zerocopy.ServerPacker, error) {
 	return Socks5PacketServerPacker{}, nil
 }
